@@ -135,7 +135,8 @@ func uniText(r *rand.Rand, n int) string {
 	if r.Intn(6) == 0 {
 		return ""
 	}
-	pieces := []string{"é", "ß", "λ", "中文", "🧬", "<", ">", "&", "\"", "\\", "\t", "\n", "a/b", " ", "ü"}
+	pieces := []string{"é", "ß", "λ", "中文", "🧬", "<", ">", "&", "\"", "\\", "\t", "\n", "a/b", " ", "ü",
+		"\v", "\x01", "\x1f", "\r", "\x7f", "\u2028", "\u2029", "\\u003c", "\\u00", "\ufeff", "\x00"} // control characters and text that looks like a JSON escape are text too
 	var sb strings.Builder
 	for i := 1 + r.Intn(n); i > 0; i-- {
 		if r.Intn(4) == 0 {
